@@ -330,11 +330,10 @@ func runCase(d desc) result {
 	me := os.Getpid()
 	for i, cmd := range cmds {
 		k := &res.Kids[i]
-		if k.Kind == "goterm" || k.Kind == "gostubborn" {
-			k.TermSeen = 0
-			if seen[k.Pid] {
-				k.TermSeen = 1
-			}
+		// TermSeen is only set when it is certain: a Go child that logged the signal saw it (a missing
+		// log line proves nothing: the child may have been killed before it got to write)
+		if seen[k.Pid] {
+			k.TermSeen = 1
 		}
 		ps := cmd.ProcessState
 		if ps != nil {
@@ -345,8 +344,14 @@ func runCase(d desc) result {
 				k.Cause, k.Code = "exit", ws.ExitStatus()
 			case ws.Signaled() && ws.Signal() == syscall.SIGTERM:
 				k.Cause = "term"
+				k.TermSeen = 1
 			case ws.Signaled() && ws.Signal() == syscall.SIGKILL:
 				k.Cause = "kill"
+				// sh and sleep keep the default SIGTERM disposition: the kernel marks them dead by SIGTERM
+				// at send time, so dying of SIGKILL means no SIGTERM was sent before
+				if k.Kind == "exit" || k.Kind == "sleep" {
+					k.TermSeen = 0
+				}
 			default:
 				k.Cause = "other"
 			}
